@@ -1560,6 +1560,22 @@ void OPNMIDIplay::panic()
     }
 }
 
+void OPNMIDIplay::releaseNotesOfBank(const OpnInstMeta *instruments)
+{
+    const OpnInstMeta *first = instruments, *last = first + 128;
+    for(size_t chan = 0; chan < m_midiChannels.size(); chan++)
+    {
+        MIDIchannel &ch = m_midiChannels[chan];
+        for(MIDIchannel::notes_iterator i = ch.activenotes.begin(); !i.is_end();)
+        {
+            MIDIchannel::notes_iterator j(i++);
+            const MIDIchannel::NoteInfo &ni = j->value;
+            if(ni.ains >= first && ni.ains < last)
+                noteOff(chan, ni.note, true);
+        }
+    }
+}
+
 void OPNMIDIplay::killSustainingNotes(int32_t midCh, int32_t this_adlchn, uint32_t sustain_type)
 {
     Synth &synth = *m_synth;
